@@ -8,6 +8,7 @@ package table
 
 import (
 	enc "github.com/named-data/ndnd/std/encoding"
+	"time"
 )
 
 // VerifPitCsInfo is a structural snapshot of a PIT-CS name tree.
@@ -26,6 +27,9 @@ type VerifPitCsInfo struct {
 	LruLocations  int
 	CachedNames   []enc.Name
 	PitEntryNames []enc.Name
+	// latest expiration time found on any PIT entry / on any in- or out-record (zero if none)
+	MaxPitExpiry    time.Time
+	MaxRecordExpiry time.Time
 }
 
 // VerifPitCsStats walks the PIT-CS tree (must be called from the goroutine that owns the table).
@@ -49,6 +53,19 @@ func VerifPitCsStats(t PitCsTable) VerifPitCsInfo {
 				info.PitNotQueued++
 			}
 			info.PitEntryNames = append(info.PitEntryNames, e.encname.Clone())
+			if e.expirationTime.After(info.MaxPitExpiry) {
+				info.MaxPitExpiry = e.expirationTime
+			}
+			for _, r := range e.inRecords {
+				if r.ExpirationTime.After(info.MaxRecordExpiry) {
+					info.MaxRecordExpiry = r.ExpirationTime
+				}
+			}
+			for _, r := range e.outRecords {
+				if r.ExpirationTime.After(info.MaxRecordExpiry) {
+					info.MaxRecordExpiry = r.ExpirationTime
+				}
+			}
 			live = true
 		}
 		if n.csEntry != nil {
